@@ -16,7 +16,7 @@ PROPS = {
     "C01": dict(
         title="A DAG call returns exactly what the plain Python function would return",
         core=["REF-DEREF", "REF-KEY", "REF-FIELDS", "REF-ASDICT"],
-        aux=["REF-MAT", "REF-SHAPE", "REF-OPS", "REF-NI", "SCH-ARMS", "OWN-ARGS", "REF-GETITEM", "REF-RESERVED", "REF-TRACE", "VAL-ARGCOUNT", "OWN-STRICT"],
+        aux=["REF-MAT", "REF-SHAPE", "REF-OPS", "REF-NI", "SCH-ARMS", "OWN-ARGS", "REF-GETITEM", "REF-RESERVED", "REF-TRACE", "VAL-ARGCOUNT", "OWN-STRICT", "REF-SEED", "REF-PREFIX"],
         explanation="Necessary structural conditions of value equivalence, re-derived from source on every run: every reference "
                     "(node id + key path) is dereferenced only through the accessor; key paths survive every re-identification; "
                     "every reference field is handled at every reference-handling site and restored after dataclasses.asdict; "
@@ -39,7 +39,7 @@ PROPS = {
     "C03": dict(
         title="Each selected active node runs exactly once per execution, nothing else runs",
         core=["SCH-ONCE", "SCH-ORIGIN", "SCH-PRUNE", "SCH-DONE"],
-        aux=["OWN-STRICT", "OWN-FORCE", "REF-UNIQ", "GT-CYCLE", "GT-GATE", "GT-CARRY", "REF-KEY", "SCH-DEACT"],
+        aux=["OWN-STRICT", "OWN-FORCE", "REF-UNIQ", "GT-CYCLE", "GT-GATE", "GT-CARRY", "REF-KEY", "SCH-DEACT", "GT-POP", "GT-ALIAS"],
         explanation="Exactly-once event pattern on every loop path: the selected id leaves the runnable set exactly once on every "
                     "path that dispatches or deactivates it and never otherwise; at most one dispatch per iteration; pre-computed "
                     "ids pruned before the runnable set is formed; results map write-once; per-call-site ids.",
@@ -91,7 +91,7 @@ PROPS = {
     "C08": dict(
         title="The scheduler never idles while a ready node and a free slot both exist",
         core=["SCH-WAITSITES", "SCH-WAITMODE"],
-        aux=["SCH-GUARD", "SCH-MIXWAIT", "SCH-POOLSIZE"],
+        aux=["SCH-GUARD", "SCH-MIXWAIT", "SCH-POOLSIZE", "SIB-FWD-SCHED"],
         explanation="Every blocking wait site of the loop is under exactly one of three licences (full or nothing runnable; "
                     "sequential candidate with something in flight; sequential node just dispatched); the first two wait "
                     "FIRST_COMPLETED; the pool has max_concurrency workers. SCH-MIXWAIT reports the exception the property names.",
@@ -101,7 +101,7 @@ PROPS = {
     "C09": dict(
         title="Every execution terminates, whatever order nodes finish in",
         core=["SCH-PROGRESS", "SCH-EXIT", "SCH-RSET"],
-        aux=["SCH-EMPTYWAIT", "SCH-DEACT", "GT-CYCLE", "ERR-CHECK", "SCH-COUNT"],
+        aux=["SCH-EMPTYWAIT", "SCH-DEACT", "GT-CYCLE", "ERR-CHECK", "SCH-COUNT", "GT-DEBUGINC"],
         explanation="Ranking argument (|graph|, |runnable|) per loop path: every feasible path shrinks the graph, moves a node "
                     "from runnable to in flight, or passes a wait that provably blocks on a non-empty set; no exit but 'graph "
                     "empty'; released roots are never dropped; cycles rejected at construction.",
@@ -111,7 +111,7 @@ PROPS = {
     "C10": dict(
         title="twz_active runs a node iff the supplied value is truthy; otherwise None",
         core=["REF-DEREF", "SCH-DEACT", "REF-FIELDS"],
-        aux=["SCH-ACTIVE", "REF-FLAGPRED", "REF-KEY", "REF-ASDICT", "REF-ACTIVE-BUILD", "REF-GETITEM"],
+        aux=["SCH-ACTIVE", "REF-FLAGPRED", "REF-KEY", "REF-ASDICT", "REF-ACTIVE-BUILD", "REF-GETITEM", "REF-REWIRE"],
         explanation="The flag is decided by the truthiness of the reference dereferenced through the accessor (key path applied); "
                     "deactivated arm = no dispatch + graph removal + release of successors; the flag is a dependency edge; the "
                     "nested-DAG flag is attached to stubs and inner nodes under one presence predicate.",
@@ -121,7 +121,7 @@ PROPS = {
     "C11": dict(
         title="A setup node runs at most once per DAG instance and its value is reused",
         core=["OWN-WRITEBACK", "OWN-SETUP", "SCH-PRUNE"],
-        aux=["OWN-DEEPCOPY", "VAL-SETUPDEP", "VAL-SETUPARG", "SIB-DAG", "SIB-FWD", "GT-PRESENCE", "OWN-SCHEDCOPY"],
+        aux=["OWN-DEEPCOPY", "VAL-SETUPDEP", "VAL-SETUPARG", "SIB-DAG", "SIB-FWD", "GT-PRESENCE", "OWN-SCHEDCOPY", "VAL-GENREUSE"],
         explanation="Who-may-write: the only element write into a DAG's results on a run path is the guarded setup write-back and "
                     "the only re-binding is setup() on a setup-only graph; pruning by membership precedes scheduling; build-time "
                     "refusals present; selection forwarded.",
@@ -131,7 +131,7 @@ PROPS = {
     "C12": dict(
         title="target / exclude / root selection executes exactly the documented closure",
         core=["GT-SELECT"],
-        aux=["GT-ALIAS", "REF-MAT", "SIB-FWD", "GT-PRESENCE", "GT-POP"],
+        aux=["GT-ALIAS", "REF-MAT", "SIB-FWD", "GT-PRESENCE", "GT-POP", "REF-DEREF"],
         explanation="Three guarded steps in dominance order roots -> exclude -> targets, each with the right closure primitive "
                     "(descendants incl. self / ancestors incl. self); alias order node, tag, id; the ValueErrors are reachable and "
                     "unconditional under their tests; unexecuted ids read as None.",
@@ -161,7 +161,7 @@ PROPS = {
     "C15": dict(
         title="Calls do not leak state: a DAG (and an executor) behaves as if freshly built",
         core=["OWN-RUN", "OWN-ARGS", "OWN-CONSUME"],
-        aux=["OWN-WRITEBACK", "VAL-EXECUTED", "OWN-COMPOSE", "OWN-SCHEDCOPY", "VAL-SETUPARG", "VAL-ARGCOUNT"],
+        aux=["OWN-WRITEBACK", "VAL-EXECUTED", "OWN-COMPOSE", "OWN-SCHEDCOPY", "VAL-SETUPARG", "VAL-ARGCOUNT", "VAL-GENREUSE", "OWN-SETUP"],
         explanation="Ownership: run paths mutate only objects they created, executor fields, or the licensed setup write-back; "
                     "arguments are written into a copy; a consumed graph is fresh per call.",
         not_decided="equality of outcomes over histories (implied by non-interference, which is what is checked)",
@@ -190,7 +190,7 @@ PROPS = {
     "C18": dict(
         title="An execution restarted from a cache file reuses, not recomputes, cached results",
         core=["CACHE-FLOW"],
-        aux=["CACHE-SHAPE", "CACHE-EXCL", "SCH-PRUNE", "CACHE-PRIORITY"],
+        aux=["CACHE-SHAPE", "CACHE-EXCL", "SCH-PRUNE", "CACHE-PRIORITY", "GT-ALIAS", "GT-POP"],
         explanation="Flow: the unpickled mapping reaches, entry by entry and overriding existing entries, the results handed to "
                     "the scheduler; writer and reader agree on the shape; the cache_deps_of ids are all excluded on write; cached "
                     "ids are pruned before scheduling.",
@@ -200,7 +200,7 @@ PROPS = {
     "C19": dict(
         title="A composed DAG computes the outputs from the supplied intermediate values",
         core=["REF-FIELDS", "REF-KEY", "OWN-COMPOSE"],
-        aux=["VAL-COMPOSE", "VAL-COMPOSE-ANC"],
+        aux=["VAL-COMPOSE", "VAL-COMPOSE-ANC", "REF-REWIRE", "GT-ALIAS", "GT-POP"],
         explanation="Rewiring covers every reference field and keeps key paths; in-place edits touch deep copies only; the three "
                     "ValueErrors are reachable with tests not weaker than stated (input-depends-on-input uses the ancestor "
                     "closure).",
